@@ -177,4 +177,721 @@ theorem splitMembers_eq_fold_of_all {reg : StrRegistry} {ts : List Ty} (h : ts.a
     splitMembers reg ts = splitFold reg ts :=
   splitMembers_eq_fold (by simpa using h)
 
+/-! ## 5. the fuel-free form of `expand`, and its structure -/
+
+mutual
+/-- what one member contributes to the list the split folds over -/
+def flatT : Ty → List Ty
+  | .union ms => flatL ms
+  | .opt (.union ms) => .null :: flatL ms
+  | x => [x]
+/-- `expand` without fuel (`expand_eq_flat`) -/
+def flatL : List Ty → List Ty
+  | [] => []
+  | t :: ts => flatT t ++ flatL ts
+end
+
+@[simp] theorem flatT_union (ms : List Ty) : flatT (.union ms) = flatL ms := by simp [flatT]
+@[simp] theorem flatT_opt_union (ms : List Ty) : flatT (.opt (.union ms)) = .null :: flatL ms := by simp [flatT]
+@[simp] theorem flatL_nil : flatL [] = [] := by simp [flatL]
+@[simp] theorem flatL_cons (t : Ty) (ts : List Ty) : flatL (t :: ts) = flatT t ++ flatL ts := by simp [flatL]
+
+theorem flatT_plain {t : Ty} (h : hidden t = false) : flatT t = [t] := by
+  cases t with
+  | union ms => simp [hidden] at h
+  | opt y => cases y <;> first | (simp [hidden] at h; done) | simp [flatT]
+  | _ => simp [flatT]
+
+theorem flatL_eq_flatMap (ts : List Ty) : flatL ts = ts.flatMap flatT := by
+  induction ts with
+  | nil => simp
+  | cons t ts ih => simp [ih]
+
+@[simp] theorem flatL_append (as bs : List Ty) : flatL (as ++ bs) = flatL as ++ flatL bs := by
+  simp [flatL_eq_flatMap]
+
+theorem mem_flatL {x : Ty} {ts : List Ty} : x ∈ flatL ts ↔ ∃ t ∈ ts, x ∈ flatT t := by
+  simp [flatL_eq_flatMap, List.mem_flatMap]
+
+theorem flatL_id {ts : List Ty} (h : ∀ t ∈ ts, hidden t = false) : flatL ts = ts := by
+  induction ts with
+  | nil => simp
+  | cons t ts ih =>
+    rw [flatL_cons, flatT_plain (h t (by simp)), ih (fun x hx => h x (by simp [hx]))]; rfl
+
+/-! ### sizes -/
+
+theorem size_pos (t : Ty) : 0 < t.size := by
+  cases t <;> simp [Ty.size] <;> omega
+
+theorem sizeList_eq_sum (ts : List Ty) : Ty.sizeList ts = (ts.map Ty.size).sum := by
+  induction ts with
+  | nil => simp [Ty.sizeList]
+  | cons t ts ih => simp [Ty.sizeList, ih]
+
+theorem size_le_sum {m : Ty} {ms : List Ty} (h : m ∈ ms) : m.size ≤ (ms.map Ty.size).sum := by
+  induction ms with
+  | nil => cases h
+  | cons a as ih =>
+    rcases List.mem_cons.1 h with rfl | h
+    · simp
+    · have := ih h; simp; omega
+
+theorem size_union (ms : List Ty) : (Ty.union ms).size = 1 + (ms.map Ty.size).sum := by
+  simp [Ty.size, sizeList_eq_sum]
+
+theorem size_opt_union (ms : List Ty) : (Ty.opt (.union ms)).size = 2 + (ms.map Ty.size).sum := by
+  simp [Ty.size, sizeList_eq_sum]; omega
+
+/-- induction along `flatT`: through unions and optional unions down to the members that are neither -/
+theorem flat_induct {P : Ty → Prop} (hu : ∀ ms, (∀ m ∈ ms, P m) → P (.union ms))
+    (hou : ∀ ms, (∀ m ∈ ms, P m) → P (.opt (.union ms))) (hp : ∀ t, hidden t = false → P t) : ∀ t, P t := by
+  have key : ∀ n (t : Ty), t.size ≤ n → P t := by
+    intro n
+    induction n with
+    | zero => intro t h; have := size_pos t; omega
+    | succ n ih =>
+      intro t h
+      by_cases hh : hidden t = true
+      · cases t with
+        | union ms =>
+          refine hu ms (fun m hm => ih m ?_)
+          have := size_le_sum hm; rw [size_union] at h; omega
+        | opt y =>
+          cases y with
+          | union ms =>
+            refine hou ms (fun m hm => ih m ?_)
+            have := size_le_sum hm; rw [size_opt_union] at h; omega
+          | _ => simp [hidden] at hh
+        | _ => simp [hidden] at hh
+      · exact hp t (by simpa using hh)
+  exact fun t => key _ t (Nat.le_refl _)
+
+/-! ### `expand` is `flatL` once the fuel covers the sizes -/
+
+theorem expand_eq_flat : ∀ (fuel : Nat) (ts : List Ty), (ts.map Ty.size).sum ≤ fuel → expand fuel ts = flatL ts
+  | _, [], _ => by simp
+  | 0, t :: ts, h => by have := size_pos t; simp at h; omega
+  | fuel + 1, t :: ts, h => by
+    by_cases hh : hidden t = true
+    · cases t with
+      | union ms =>
+        rw [expand_succ_union, expand_eq_flat fuel (ms ++ ts)]
+        · simp
+        · simp [size_union] at h ⊢; omega
+      | opt y =>
+        cases y with
+        | union ms =>
+          rw [expand_succ_opt_union, expand_eq_flat fuel (ms ++ ts)]
+          · simp
+          · simp [size_opt_union] at h ⊢; omega
+        | _ => simp [hidden] at hh
+      | _ => simp [hidden] at hh
+    · have hh : hidden t = false := by simpa using hh
+      rw [expand_succ_plain fuel ts hh, expand_eq_flat fuel ts, flatL_cons, flatT_plain hh]; rfl
+      have := size_pos t; simp at h; omega
+
+theorem sum_le_fuelOf (ts : List Ty) : (ts.map Ty.size).sum ≤ fuelOf ts := by
+  unfold fuelOf; omega
+
+@[simp] theorem expand_fuelOf (ts : List Ty) : expand (fuelOf ts) ts = flatL ts :=
+  expand_eq_flat _ ts (sum_le_fuelOf ts)
+
+/-- the worklist is the old fold over the flattened member list -/
+theorem splitMembers_eq_flat (reg : StrRegistry) (ts : List Ty) : splitMembers reg ts = splitFold reg (flatL ts) := by
+  rw [splitMembers_eq, expand_fuelOf]
+
+theorem splitMembers_eq_flat_foldl (reg : StrRegistry) (ts : List Ty) :
+    splitMembers reg ts = (flatL ts).foldl (splitStep reg) {} :=
+  splitMembers_eq_flat reg ts
+
+/-! ### nothing hidden is left -/
+
+theorem flatT_no_hidden : ∀ (t : Ty) {x : Ty}, x ∈ flatT t → hidden x = false := by
+  intro t
+  induction t using flat_induct with
+  | hu ms ih => intro x hx; rw [flatT_union, mem_flatL] at hx; obtain ⟨m, hm, hx⟩ := hx; exact ih m hm hx
+  | hou ms ih =>
+    intro x hx
+    rw [flatT_opt_union, List.mem_cons, mem_flatL] at hx
+    rcases hx with rfl | ⟨m, hm, hx⟩
+    · rfl
+    · exact ih m hm hx
+  | hp t h => intro x hx; rw [flatT_plain h] at hx; simp at hx; subst hx; exact h
+
+theorem flatL_no_hidden {ts : List Ty} {x : Ty} (hx : x ∈ flatL ts) : hidden x = false := by
+  obtain ⟨t, _, hx⟩ := mem_flatL.1 hx; exact flatT_no_hidden t hx
+
+/-- no element of `expand` is a union or an optional union (any fuel) -/
+theorem expand_no_hidden_top : ∀ (fuel : Nat) (ts : List Ty) {x : Ty}, x ∈ expand fuel ts → hidden x = false
+  | 0, _, _, h => by simp at h
+  | _ + 1, [], _, h => by simp at h
+  | fuel + 1, t :: ts, x, h => by
+    by_cases hh : hidden t = true
+    · cases t with
+      | union ms => rw [expand_succ_union] at h; exact expand_no_hidden_top fuel _ h
+      | opt y =>
+        cases y with
+        | union ms =>
+          rw [expand_succ_opt_union, List.mem_cons] at h
+          rcases h with rfl | h
+          · rfl
+          · exact expand_no_hidden_top fuel _ h
+        | _ => simp [hidden] at hh
+      | _ => simp [hidden] at hh
+    · have hh : hidden t = false := by simpa using hh
+      rw [expand_succ_plain fuel ts hh, List.mem_cons] at h
+      rcases h with rfl | h
+      · exact hh
+      · exact expand_no_hidden_top fuel _ h
+
+theorem not_hidden_ne_union {x : Ty} (h : hidden x = false) (ms : List Ty) : x ≠ .union ms := by
+  rintro rfl; simp at h
+
+theorem not_hidden_opt {y : Ty} (h : hidden (.opt y) = false) : y.isUnion = false := by
+  cases y <;> simp_all [hidden, Ty.isUnion]
+
+theorem expand_ne_union {fuel : Nat} {ts : List Ty} {x : Ty} (hx : x ∈ expand fuel ts) (ms : List Ty) :
+    x ≠ .union ms := not_hidden_ne_union (expand_no_hidden_top fuel ts hx) ms
+
+theorem expand_opt_not_union {fuel : Nat} {ts : List Ty} {y : Ty} (hx : Ty.opt y ∈ expand fuel ts) :
+    y.isUnion = false := not_hidden_opt (expand_no_hidden_top fuel ts hx)
+
+theorem flatL_ne_union {ts : List Ty} {x : Ty} (hx : x ∈ flatL ts) (ms : List Ty) : x ≠ .union ms :=
+  not_hidden_ne_union (flatL_no_hidden hx) ms
+
+theorem flatL_opt_not_union {ts : List Ty} {y : Ty} (hx : Ty.opt y ∈ flatL ts) : y.isUnion = false :=
+  not_hidden_opt (flatL_no_hidden hx)
+
+/-! ### transfer of invariants, both directions -/
+
+/-- an invariant of the members that survives the descent holds for the flattened list -/
+theorem forall_flatT {R : Ty → Prop} (hnull : R .null) (hu : ∀ ms, R (.union ms) → ∀ m ∈ ms, R m)
+    (hou : ∀ ms, R (.opt (.union ms)) → ∀ m ∈ ms, R m) : ∀ (t : Ty), R t → ∀ x ∈ flatT t, R x := by
+  intro t
+  induction t using flat_induct with
+  | hu ms ih =>
+    intro h x hx; rw [flatT_union, mem_flatL] at hx; obtain ⟨m, hm, hx⟩ := hx
+    exact ih m hm (hu ms h m hm) x hx
+  | hou ms ih =>
+    intro h x hx
+    rw [flatT_opt_union, List.mem_cons, mem_flatL] at hx
+    rcases hx with rfl | ⟨m, hm, hx⟩
+    · exact hnull
+    · exact ih m hm (hou ms h m hm) x hx
+  | hp t h => intro ht x hx; rw [flatT_plain h] at hx; simp at hx; subst hx; exact ht
+
+theorem forall_flatL {R : Ty → Prop} (hnull : R .null) (hu : ∀ ms, R (.union ms) → ∀ m ∈ ms, R m)
+    (hou : ∀ ms, R (.opt (.union ms)) → ∀ m ∈ ms, R m) {ts : List Ty} (h : ∀ t ∈ ts, R t) :
+    ∀ x ∈ flatL ts, R x := by
+  intro x hx; obtain ⟨t, ht, hx⟩ := mem_flatL.1 hx
+  exact forall_flatT hnull hu hou t (h t ht) x hx
+
+/-- the usual instance: `R` goes under `Optional` and to union members -/
+theorem forall_flatL' {R : Ty → Prop} (hnull : R .null) (hopt : ∀ x, R (.opt x) → R x)
+    (hu : ∀ ms, R (.union ms) → ∀ m ∈ ms, R m) {ts : List Ty} (h : ∀ t ∈ ts, R t) : ∀ x ∈ flatL ts, R x :=
+  forall_flatL hnull hu (fun ms h => hu ms (hopt _ h)) h
+
+/-- conversely: what holds of the flattened list and is built up by unions / optional unions holds of the members -/
+theorem cover_flatT {C : Ty → Prop} {L : List Ty} (hu : ∀ ms, (∀ m ∈ ms, C m) → C (.union ms))
+    (hou : ∀ ms, Ty.null ∈ L → (∀ m ∈ ms, C m) → C (.opt (.union ms)))
+    (hL : ∀ x ∈ L, hidden x = false → C x) : ∀ (t : Ty), (∀ x ∈ flatT t, x ∈ L) → C t := by
+  intro t
+  induction t using flat_induct with
+  | hu ms ih =>
+    intro h; refine hu ms (fun m hm => ih m hm (fun x hx => h x ?_))
+    rw [flatT_union, mem_flatL]; exact ⟨m, hm, hx⟩
+  | hou ms ih =>
+    intro h
+    refine hou ms (h _ (by simp)) (fun m hm => ih m hm (fun x hx => h x ?_))
+    rw [flatT_opt_union, List.mem_cons, mem_flatL]; exact Or.inr ⟨m, hm, hx⟩
+  | hp t ht => intro h; exact hL t (h t (by simp [flatT_plain ht])) ht
+
+theorem cover_flatL {C : Ty → Prop} {ts : List Ty} (hu : ∀ ms, (∀ m ∈ ms, C m) → C (.union ms))
+    (hou : ∀ ms, Ty.null ∈ flatL ts → (∀ m ∈ ms, C m) → C (.opt (.union ms)))
+    (hL : ∀ x ∈ flatL ts, hidden x = false → C x) : ∀ t ∈ ts, C t := by
+  intro t ht
+  exact cover_flatT hu hou hL t (fun x hx => mem_flatL.2 ⟨t, ht, hx⟩)
+
+/-! ### membership -/
+
+/-- `Reach t x`: `x` is `t`, or is found in `t` by descending through `.union` / `.opt (.union)` -/
+inductive Reach : Ty → Ty → Prop
+  | refl (t : Ty) : Reach t t
+  | union {ms : List Ty} {m x : Ty} : m ∈ ms → Reach m x → Reach (.union ms) x
+  | optUnion {ms : List Ty} {m x : Ty} : m ∈ ms → Reach m x → Reach (.opt (.union ms)) x
+
+theorem Reach.trans {a b c : Ty} (h1 : Reach a b) (h2 : Reach b c) : Reach a c := by
+  induction h1 with
+  | refl => exact h2
+  | union hm _ ih => exact .union hm (ih h2)
+  | optUnion hm _ ih => exact .optUnion hm (ih h2)
+
+theorem Reach.of_not_hidden {t x : Ty} (h : Reach t x) (ht : hidden t = false) : x = t := by
+  cases h with
+  | refl => rfl
+  | union => simp at ht
+  | optUnion => simp at ht
+
+/-- an element of `flatT t` is reachable from `t`, or is the `.null` of a reachable optional union -/
+theorem mem_flatT_reach : ∀ (t : Ty) {x : Ty}, x ∈ flatT t →
+    Reach t x ∨ (x = .null ∧ ∃ ms, Reach t (.opt (.union ms))) := by
+  intro t
+  induction t using flat_induct with
+  | hu ms ih =>
+    intro x hx; rw [flatT_union, mem_flatL] at hx; obtain ⟨m, hm, hx⟩ := hx
+    rcases ih m hm hx with h | ⟨rfl, ms', h⟩
+    · exact .inl (.union hm h)
+    · exact .inr ⟨rfl, ms', .union hm h⟩
+  | hou ms ih =>
+    intro x hx
+    rw [flatT_opt_union, List.mem_cons, mem_flatL] at hx
+    rcases hx with rfl | ⟨m, hm, hx⟩
+    · exact .inr ⟨rfl, ms, .refl _⟩
+    · rcases ih m hm hx with h | ⟨rfl, ms', h⟩
+      · exact .inl (.optUnion hm h)
+      · exact .inr ⟨rfl, ms', .optUnion hm h⟩
+  | hp t h => intro x hx; rw [flatT_plain h] at hx; simp at hx; subst hx; exact .inl (.refl _)
+
+/-- every reachable member that is not itself spliced is in `flatT t` -/
+theorem reach_mem_flatT {t x : Ty} (h : Reach t x) (hx : hidden x = false) : x ∈ flatT t := by
+  induction h with
+  | refl t => simp [flatT_plain hx]
+  | union hm _ ih => rw [flatT_union, mem_flatL]; exact ⟨_, hm, ih hx⟩
+  | optUnion hm _ ih => rw [flatT_opt_union, List.mem_cons, mem_flatL]; exact .inr ⟨_, hm, ih hx⟩
+
+theorem reach_opt_union_null {t : Ty} {ms : List Ty} (h : Reach t (.opt (.union ms))) : Ty.null ∈ flatT t := by
+  generalize hy : Ty.opt (.union ms) = y at h
+  induction h with
+  | refl t => subst hy; simp
+  | union hm _ ih => rw [flatT_union, mem_flatL]; exact ⟨_, hm, ih hy⟩
+  | optUnion hm _ ih => rw [flatT_opt_union, List.mem_cons, mem_flatL]; exact .inr ⟨_, hm, ih hy⟩
+
+theorem mem_flatT_iff {t x : Ty} : x ∈ flatT t ↔
+    hidden x = false ∧ (Reach t x ∨ (x = .null ∧ ∃ ms, Reach t (.opt (.union ms)))) := by
+  constructor
+  · intro h; exact ⟨flatT_no_hidden t h, mem_flatT_reach t h⟩
+  · rintro ⟨hx, h | ⟨rfl, ms, h⟩⟩
+    · exact reach_mem_flatT h hx
+    · exact reach_opt_union_null h
+
+theorem mem_flatL_iff {ts : List Ty} {x : Ty} : x ∈ flatL ts ↔
+    hidden x = false ∧ ∃ t ∈ ts, Reach t x ∨ (x = .null ∧ ∃ ms, Reach t (.opt (.union ms))) := by
+  rw [mem_flatL]
+  constructor
+  · rintro ⟨t, ht, h⟩; have := mem_flatT_iff.1 h; exact ⟨this.1, t, ht, this.2⟩
+  · rintro ⟨hx, t, ht, h⟩; exact ⟨t, ht, mem_flatT_iff.2 ⟨hx, h⟩⟩
+
+/-- `mem_expand` (sufficient fuel) -/
+theorem mem_expand {fuel : Nat} {ts : List Ty} (hf : (ts.map Ty.size).sum ≤ fuel) {x : Ty} :
+    x ∈ expand fuel ts ↔
+      hidden x = false ∧ ∃ t ∈ ts, Reach t x ∨ (x = .null ∧ ∃ ms, Reach t (.opt (.union ms))) := by
+  rw [expand_eq_flat fuel ts hf, mem_flatL_iff]
+
+/-- a member that is not spliced stays -/
+theorem mem_flatL_of_mem {ts : List Ty} {t : Ty} (ht : t ∈ ts) (h : hidden t = false) : t ∈ flatL ts :=
+  mem_flatL.2 ⟨t, ht, by simp [flatT_plain h]⟩
+
+/-! ### append, sizes, idempotence -/
+
+theorem expand_append {fuel : Nat} {as bs : List Ty} (hf : ((as ++ bs).map Ty.size).sum ≤ fuel) :
+    expand fuel (as ++ bs) = expand fuel as ++ expand fuel bs := by
+  have h1 : (as.map Ty.size).sum ≤ fuel := by simp at hf; omega
+  have h2 : (bs.map Ty.size).sum ≤ fuel := by simp at hf; omega
+  rw [expand_eq_flat _ _ hf, expand_eq_flat _ _ h1, expand_eq_flat _ _ h2, flatL_append]
+
+theorem flatT_sizes : ∀ t : Ty, ((flatT t).map Ty.size).sum ≤ t.size := by
+  have hL : ∀ ms : List Ty, (∀ m ∈ ms, ((flatT m).map Ty.size).sum ≤ m.size) →
+      ((flatL ms).map Ty.size).sum ≤ (ms.map Ty.size).sum := by
+    intro ms
+    induction ms with
+    | nil => simp
+    | cons a as ih =>
+      intro h
+      have h1 := h a (by simp)
+      have h2 := ih (fun m hm => h m (by simp [hm]))
+      simp; omega
+  intro t
+  induction t using flat_induct with
+  | hu ms ih => rw [flatT_union, size_union]; have := hL ms ih; omega
+  | hou ms ih =>
+    rw [flatT_opt_union, size_opt_union]; have := hL ms ih
+    simp [Ty.size]; omega
+  | hp t h => simp [flatT_plain h]
+
+theorem flatL_sizes (ts : List Ty) : ((flatL ts).map Ty.size).sum ≤ (ts.map Ty.size).sum := by
+  induction ts with
+  | nil => simp
+  | cons a as ih => have := flatT_sizes a; simp; omega
+
+theorem expand_sizes {fuel : Nat} {ts : List Ty} (hf : (ts.map Ty.size).sum ≤ fuel) :
+    ((expand fuel ts).map Ty.size).sum ≤ (ts.map Ty.size).sum := by
+  rw [expand_eq_flat _ _ hf]; exact flatL_sizes ts
+
+theorem flatL_idem (ts : List Ty) : flatL (flatL ts) = flatL ts :=
+  flatL_id (fun _ h => flatL_no_hidden h)
+
+theorem expand_idem {fuel : Nat} {ts : List Ty} (hf : (ts.map Ty.size).sum ≤ fuel) :
+    expand fuel (expand fuel ts) = expand fuel ts := by
+  rw [expand_eq_flat _ _ hf, expand_eq_flat _ _ (Nat.le_trans (flatL_sizes ts) hf), flatL_idem]
+
+theorem flatL_eq_nil {ts : List Ty} (h : flatL ts = []) : ∀ t ∈ ts, ∃ ms, t = .union ms := by
+  intro t ht
+  by_cases hh : hidden t = true
+  · cases t with
+    | union ms => exact ⟨ms, rfl⟩
+    | opt y =>
+      have : Ty.null ∈ flatL ts := by
+        cases y with
+        | union ms => exact mem_flatL.2 ⟨_, ht, by simp⟩
+        | _ => simp [hidden] at hh
+      simp [h] at this
+    | _ => simp [hidden] at hh
+  · have := mem_flatL_of_mem ht (by simpa using hh); simp [h] at this
+
+
+/-! ## 6. what the fold produces -/
+
+/-- the member after `Optional` is taken off -/
+def core : Ty → Ty
+  | .opt x => x
+  | x => x
+
+@[simp] theorem core_opt (x : Ty) : core (.opt x) = x := rfl
+theorem core_of_not_opt {t : Ty} (h : t.isOpt = false) : core t = t := by
+  cases t <;> first | rfl | simp [Ty.isOpt] at h
+
+/-- the category step on an unwrapped member (`InhOptimize.classify`, `MergeAtoms.splitPlain`) -/
+def classify (reg : StrRegistry) (item : Ty) (s : Split) : Split :=
+  match item with
+  | .obj fs => { s with toMerge := s.toMerge ++ [fs] }
+  | .str => { s with strTypes := s.strTypes ++ [item] }
+  | .ser k => if reg.types.contains k then { s with strTypes := s.strTypes ++ [item] }
+              else { s with other := s.other ++ [item] }
+  | .list x => { s with lists := s.lists ++ [x] }
+  | .dict x => { s with dicts := s.dicts ++ [x] }
+  | x => { s with other := s.other ++ [x] }
+
+theorem splitStep_opt (reg : StrRegistry) (s : Split) (x : Ty) :
+    splitStep reg s (.opt x) = classify reg x { s with other := s.other ++ [Ty.null] } := by
+  cases x <;> rfl
+
+theorem splitStep_of_not_opt (reg : StrRegistry) (s : Split) {t : Ty} (h : t.isOpt = false) :
+    splitStep reg s t = classify reg t s := by
+  cases t <;> first | rfl | simp [Ty.isOpt] at h
+
+theorem splitStep_eq_match (reg : StrRegistry) (s : Split) (item : Ty) :
+    splitStep reg s item =
+      match item with
+      | .opt x => classify reg x { s with other := s.other ++ [Ty.null] }
+      | x => classify reg x s := by
+  cases item <;> first | rfl | exact splitStep_opt reg s _
+
+def isStrT (reg : StrRegistry) : Ty → Bool
+  | .str => true
+  | .ser k => reg.types.contains k
+  | _ => false
+def objF : Ty → Option Fields | .obj fs => some fs | _ => none
+def listE : Ty → Option Ty | .list x => some x | _ => none
+def dictE : Ty → Option Ty | .dict x => some x | _ => none
+/-- the members that go to `other` as they are -/
+def isOth (reg : StrRegistry) : Ty → Bool
+  | .obj _ | .str | .list _ | .dict _ => false
+  | .ser k => !reg.types.contains k
+  | _ => true
+
+/-- what a member adds to `other` -/
+def othOf (reg : StrRegistry) (t : Ty) : List Ty :=
+  (if t.isOpt then [Ty.null] else []) ++ (if isOth reg (core t) then [core t] else [])
+
+theorem classify_spec (reg : StrRegistry) (s : Split) (item : Ty) :
+    classify reg item s =
+      { strTypes := s.strTypes ++ (if isStrT reg item then [item] else []),
+        toMerge := s.toMerge ++ (objF item).toList,
+        lists := s.lists ++ (listE item).toList,
+        dicts := s.dicts ++ (dictE item).toList,
+        other := s.other ++ (if isOth reg item then [item] else []) } := by
+  cases item <;> try (simp [classify, isStrT, objF, listE, dictE, isOth]; done)
+  rename_i k
+  simp only [classify, isStrT, objF, listE, dictE, isOth]
+  by_cases h : k ∈ reg.types <;> simp [h]
+
+theorem splitStep_spec (reg : StrRegistry) (s : Split) (t : Ty) :
+    splitStep reg s t =
+      { strTypes := s.strTypes ++ (if isStrT reg (core t) then [core t] else []),
+        toMerge := s.toMerge ++ (objF (core t)).toList,
+        lists := s.lists ++ (listE (core t)).toList,
+        dicts := s.dicts ++ (dictE (core t)).toList,
+        other := s.other ++ othOf reg t } := by
+  by_cases h : t.isOpt = true
+  · cases t with
+    | opt x =>
+      rw [splitStep_opt, classify_spec]
+      simp only [othOf, Ty.isOpt, core_opt, if_true, List.append_assoc]
+      rfl
+    | _ => simp [Ty.isOpt] at h
+  · have h : t.isOpt = false := by simpa using h
+    rw [splitStep_of_not_opt reg s h, classify_spec, core_of_not_opt h]
+    simp only [othOf, h, core_of_not_opt h, Bool.false_eq_true, if_false, List.nil_append]
+
+/-- the fold in closed form -/
+theorem splitFoldFrom_spec (reg : StrRegistry) : ∀ (ts : List Ty) (s : Split),
+    splitFoldFrom reg s ts =
+      { strTypes := s.strTypes ++ (ts.map core).filter (isStrT reg),
+        toMerge := s.toMerge ++ (ts.map core).filterMap objF,
+        lists := s.lists ++ (ts.map core).filterMap listE,
+        dicts := s.dicts ++ (ts.map core).filterMap dictE,
+        other := s.other ++ ts.flatMap (othOf reg) }
+  | [], s => by simp
+  | t :: ts, s => by
+    rw [splitFoldFrom_cons, splitFoldFrom_spec reg ts, splitStep_spec]
+    cases h1 : isStrT reg (core t) <;> cases h2 : objF (core t) <;> cases h3 : listE (core t) <;>
+      cases h4 : dictE (core t) <;>
+      simp [h1, h2, h3, h4, List.append_assoc]
+
+theorem splitFold_spec (reg : StrRegistry) (ts : List Ty) :
+    splitFold reg ts =
+      { strTypes := (ts.map core).filter (isStrT reg), toMerge := (ts.map core).filterMap objF,
+        lists := (ts.map core).filterMap listE, dicts := (ts.map core).filterMap dictE,
+        other := ts.flatMap (othOf reg) } := by
+  rw [splitFold_eq_from, splitFoldFrom_spec]; simp
+
+theorem splitMembers_spec (reg : StrRegistry) (ts : List Ty) :
+    splitMembers reg ts =
+      { strTypes := ((flatL ts).map core).filter (isStrT reg), toMerge := ((flatL ts).map core).filterMap objF,
+        lists := ((flatL ts).map core).filterMap listE, dicts := ((flatL ts).map core).filterMap dictE,
+        other := (flatL ts).flatMap (othOf reg) } := by
+  rw [splitMembers_eq_flat, splitFold_spec]
+
+/-! ### invariants along the fold -/
+
+theorem splitFoldFrom_induct {I : Split → Prop} {reg : StrRegistry} {ts : List Ty} {s : Split} (h0 : I s)
+    (hstep : ∀ s t, t ∈ ts → I s → I (splitStep reg s t)) : I (splitFoldFrom reg s ts) := by
+  induction ts generalizing s with
+  | nil => exact h0
+  | cons t ts ih =>
+    rw [splitFoldFrom_cons]
+    exact ih (hstep s t (by simp) h0) (fun s x hx => hstep s x (by simp [hx]))
+
+theorem splitFold_induct {I : Split → Prop} {reg : StrRegistry} {ts : List Ty} (h0 : I {})
+    (hstep : ∀ s t, t ∈ ts → I s → I (splitStep reg s t)) : I (splitFold reg ts) :=
+  splitFoldFrom_induct (s := {}) h0 hstep
+
+/-- an invariant of the split: it is enough to keep it along the steps on the members of `flatL ts` -/
+theorem splitMembers_induct {I : Split → Prop} {reg : StrRegistry} {ts : List Ty} (h0 : I {})
+    (hstep : ∀ s t, t ∈ flatL ts → I s → I (splitStep reg s t)) : I (splitMembers reg ts) := by
+  rw [splitMembers_eq_flat]; exact splitFold_induct h0 hstep
+
+/-- the same with a member invariant `R` that survives the descent through `Optional`/unions -/
+theorem splitMembers_induct' {I : Split → Prop} {R : Ty → Prop} {reg : StrRegistry} {ts : List Ty}
+    (hnull : R .null) (hopt : ∀ x, R (.opt x) → R x) (hu : ∀ ms, R (.union ms) → ∀ m ∈ ms, R m)
+    (hts : ∀ t ∈ ts, R t) (h0 : I {})
+    (hstep : ∀ s t, R t → hidden t = false → I s → I (splitStep reg s t)) : I (splitMembers reg ts) :=
+  splitMembers_induct h0 (fun s t ht hs =>
+    hstep s t (forall_flatL' hnull hopt hu hts t ht) (flatL_no_hidden ht) hs)
+
+/-! ### membership in the categories -/
+
+theorem exists_core_iff {ts : List Ty} {y : Ty} :
+    (∃ t ∈ ts, core t = y) ↔ (y ∈ ts ∧ y.isOpt = false) ∨ Ty.opt y ∈ ts := by
+  constructor
+  · rintro ⟨t, ht, rfl⟩
+    by_cases h : t.isOpt = true
+    · cases t <;> simp [Ty.isOpt] at h; exact .inr ht
+    · have h : t.isOpt = false := by simpa using h
+      rw [core_of_not_opt h]; exact .inl ⟨ht, h⟩
+  · rintro (⟨h, ho⟩ | h)
+    · exact ⟨y, h, core_of_not_opt ho⟩
+    · exact ⟨_, h, rfl⟩
+
+theorem mem_filterMap_objF {ms : List Ty} {fs : Fields} : fs ∈ ms.filterMap objF ↔ Ty.obj fs ∈ ms := by
+  simp only [List.mem_filterMap]
+  constructor
+  · rintro ⟨a, ha, h⟩; cases a <;> simp [objF] at h; subst h; exact ha
+  · intro h; exact ⟨_, h, rfl⟩
+theorem mem_filterMap_listE {ms : List Ty} {x : Ty} : x ∈ ms.filterMap listE ↔ Ty.list x ∈ ms := by
+  simp only [List.mem_filterMap]
+  constructor
+  · rintro ⟨a, ha, h⟩; cases a <;> simp [listE] at h; subst h; exact ha
+  · intro h; exact ⟨_, h, rfl⟩
+theorem mem_filterMap_dictE {ms : List Ty} {x : Ty} : x ∈ ms.filterMap dictE ↔ Ty.dict x ∈ ms := by
+  simp only [List.mem_filterMap]
+  constructor
+  · rintro ⟨a, ha, h⟩; cases a <;> simp [dictE] at h; subst h; exact ha
+  · intro h; exact ⟨_, h, rfl⟩
+
+theorem mem_map_core {ts : List Ty} {y : Ty} : y ∈ ts.map core ↔ ∃ t ∈ ts, core t = y := by
+  simp [List.mem_map]
+
+theorem mem_lists_fold {reg : StrRegistry} {ts : List Ty} {x : Ty} :
+    x ∈ (splitFold reg ts).lists ↔ Ty.list x ∈ ts ∨ Ty.opt (.list x) ∈ ts := by
+  rw [splitFold_spec]; simp only [mem_filterMap_listE, mem_map_core, exists_core_iff]; simp [Ty.isOpt]
+
+theorem mem_dicts_fold {reg : StrRegistry} {ts : List Ty} {x : Ty} :
+    x ∈ (splitFold reg ts).dicts ↔ Ty.dict x ∈ ts ∨ Ty.opt (.dict x) ∈ ts := by
+  rw [splitFold_spec]; simp only [mem_filterMap_dictE, mem_map_core, exists_core_iff]; simp [Ty.isOpt]
+
+theorem mem_toMerge_fold {reg : StrRegistry} {ts : List Ty} {fs : Fields} :
+    fs ∈ (splitFold reg ts).toMerge ↔ Ty.obj fs ∈ ts ∨ Ty.opt (.obj fs) ∈ ts := by
+  rw [splitFold_spec]; simp only [mem_filterMap_objF, mem_map_core, exists_core_iff]; simp [Ty.isOpt]
+
+theorem isStrT_iff {reg : StrRegistry} {x : Ty} :
+    isStrT reg x = true ↔ x = .str ∨ ∃ k, x = .ser k ∧ reg.types.contains k = true := by
+  cases x <;> simp [isStrT]
+
+theorem isStrT_not_opt {reg : StrRegistry} {x : Ty} (h : isStrT reg x = true) : x.isOpt = false := by
+  cases x <;> simp_all [isStrT, Ty.isOpt]
+
+theorem mem_strTypes_fold {reg : StrRegistry} {ts : List Ty} {x : Ty} :
+    x ∈ (splitFold reg ts).strTypes ↔ isStrT reg x = true ∧ (x ∈ ts ∨ Ty.opt x ∈ ts) := by
+  rw [splitFold_spec]; simp only [List.mem_filter, mem_map_core, exists_core_iff]
+  constructor
+  · rintro ⟨h | h, hs⟩
+    · exact ⟨hs, .inl h.1⟩
+    · exact ⟨hs, .inr h⟩
+  · rintro ⟨hs, h | h⟩
+    · exact ⟨.inl ⟨h, isStrT_not_opt hs⟩, hs⟩
+    · exact ⟨.inr h, hs⟩
+
+theorem mem_othOf {reg : StrRegistry} {t x : Ty} :
+    x ∈ othOf reg t ↔ (x = .null ∧ t.isOpt = true) ∨ (x = core t ∧ isOth reg x = true) := by
+  unfold othOf
+  by_cases h1 : t.isOpt = true <;> by_cases h2 : isOth reg (core t) = true <;> simp [h1, h2]
+  · constructor
+    · rintro (h | rfl)
+      · exact .inl h
+      · exact .inr ⟨rfl, h2⟩
+    · rintro (h | ⟨h, _⟩)
+      · exact .inl h
+      · exact .inr h
+  · rintro rfl h; simp [h] at h2
+  · rintro rfl; exact h2
+  · rintro rfl; simpa using h2
+
+theorem mem_other_fold {reg : StrRegistry} {ts : List Ty} {x : Ty} :
+    x ∈ (splitFold reg ts).other ↔
+      (x = .null ∧ ∃ t ∈ ts, t.isOpt = true) ∨ (isOth reg x = true ∧ ((x ∈ ts ∧ x.isOpt = false) ∨ Ty.opt x ∈ ts)) := by
+  rw [splitFold_spec]; simp only [List.mem_flatMap, mem_othOf, ← exists_core_iff]
+  constructor
+  · rintro ⟨t, ht, ⟨rfl, ho⟩ | ⟨rfl, ho⟩⟩
+    · exact .inl ⟨rfl, t, ht, ho⟩
+    · exact .inr ⟨ho, t, ht, rfl⟩
+  · rintro (⟨rfl, t, ht, ho⟩ | ⟨ho, t, ht, rfl⟩)
+    · exact ⟨t, ht, .inl ⟨rfl, ho⟩⟩
+    · exact ⟨t, ht, .inr ⟨rfl, ho⟩⟩
+
+/-- every `other` entry is `.null` or a member with `Optional` taken off -/
+theorem other_subset_fold {reg : StrRegistry} {ts : List Ty} {x : Ty} (h : x ∈ (splitFold reg ts).other) :
+    x = .null ∨ x ∈ ts ∨ Ty.opt x ∈ ts := by
+  rcases mem_other_fold.1 h with ⟨h, _⟩ | ⟨_, h | h⟩
+  · exact .inl h
+  · exact .inr (.inl h.1)
+  · exact .inr (.inr h)
+
+theorem other_null_iff_fold {reg : StrRegistry} {ts : List Ty} :
+    Ty.null ∈ (splitFold reg ts).other ↔ ∃ t ∈ ts, t.isOpt = true ∨ t = .null := by
+  rw [mem_other_fold]
+  constructor
+  · rintro (⟨_, t, ht, ho⟩ | ⟨_, h | h⟩)
+    · exact ⟨t, ht, .inl ho⟩
+    · exact ⟨_, h.1, .inr rfl⟩
+    · exact ⟨_, h, .inl rfl⟩
+  · rintro ⟨t, ht, ho | rfl⟩
+    · exact .inl ⟨rfl, t, ht, ho⟩
+    · exact .inr ⟨rfl, .inl ⟨ht, rfl⟩⟩
+
+/-! ### the same for `splitMembers`, through `flatL` -/
+
+theorem mem_lists {reg : StrRegistry} {ts : List Ty} {x : Ty} :
+    x ∈ (splitMembers reg ts).lists ↔ Ty.list x ∈ flatL ts ∨ Ty.opt (.list x) ∈ flatL ts := by
+  rw [splitMembers_eq_flat, mem_lists_fold]
+
+theorem mem_dicts {reg : StrRegistry} {ts : List Ty} {x : Ty} :
+    x ∈ (splitMembers reg ts).dicts ↔ Ty.dict x ∈ flatL ts ∨ Ty.opt (.dict x) ∈ flatL ts := by
+  rw [splitMembers_eq_flat, mem_dicts_fold]
+
+theorem mem_toMerge {reg : StrRegistry} {ts : List Ty} {fs : Fields} :
+    fs ∈ (splitMembers reg ts).toMerge ↔ Ty.obj fs ∈ flatL ts ∨ Ty.opt (.obj fs) ∈ flatL ts := by
+  rw [splitMembers_eq_flat, mem_toMerge_fold]
+
+theorem mem_strTypes {reg : StrRegistry} {ts : List Ty} {x : Ty} :
+    x ∈ (splitMembers reg ts).strTypes ↔ isStrT reg x = true ∧ (x ∈ flatL ts ∨ Ty.opt x ∈ flatL ts) := by
+  rw [splitMembers_eq_flat, mem_strTypes_fold]
+
+theorem mem_other {reg : StrRegistry} {ts : List Ty} {x : Ty} :
+    x ∈ (splitMembers reg ts).other ↔
+      (x = .null ∧ ∃ t ∈ flatL ts, t.isOpt = true) ∨
+      (isOth reg x = true ∧ ((x ∈ flatL ts ∧ x.isOpt = false) ∨ Ty.opt x ∈ flatL ts)) := by
+  rw [splitMembers_eq_flat, mem_other_fold]
+
+theorem other_subset {reg : StrRegistry} {ts : List Ty} {x : Ty} (h : x ∈ (splitMembers reg ts).other) :
+    x = .null ∨ x ∈ flatL ts ∨ Ty.opt x ∈ flatL ts := by
+  rw [splitMembers_eq_flat] at h; exact other_subset_fold h
+
+/-- no union is ever put in `other` (the point of the worklist) -/
+theorem other_ne_union {reg : StrRegistry} {ts : List Ty} {x : Ty} (h : x ∈ (splitMembers reg ts).other)
+    (ms : List Ty) : x ≠ .union ms := by
+  rintro rfl
+  rcases other_subset h with h | h | h
+  · cases h
+  · exact flatL_ne_union h ms rfl
+  · have := flatL_opt_not_union h; simp [Ty.isUnion] at this
+
+theorem split_other_null_iff {reg : StrRegistry} {ts : List Ty} :
+    Ty.null ∈ (splitMembers reg ts).other ↔ ∃ t ∈ flatL ts, t.isOpt = true ∨ t = .null := by
+  rw [splitMembers_eq_flat, other_null_iff_fold]
+
+/-- in terms of `expand`, as `splitMembers_eq` states it -/
+theorem split_other_null_iff_expand {reg : StrRegistry} {ts : List Ty} :
+    Ty.null ∈ (splitMembers reg ts).other ↔ ∃ t ∈ expand (fuelOf ts) ts, t.isOpt = true ∨ t = .null := by
+  rw [expand_fuelOf, split_other_null_iff]
+
+/-- an `Optional` member always leaves a `.null` in the flattened list, or stays as it is -/
+theorem exists_opt_flatL {ts : List Ty} (h : ∃ m ∈ ts, m.isOpt = true) : ∃ t ∈ flatL ts, t.isOpt = true ∨ t = .null := by
+  obtain ⟨m, hm, ho⟩ := h
+  by_cases hh : hidden m = true
+  · refine ⟨.null, mem_flatL.2 ⟨m, hm, ?_⟩, .inr rfl⟩
+    cases m with
+    | opt y => cases y <;> first | (simp [hidden] at hh; done) | simp
+    | _ => simp [Ty.isOpt] at ho
+  · exact ⟨m, mem_flatL_of_mem hm (by simpa using hh), .inl ho⟩
+
+theorem other_null_of_opt {reg : StrRegistry} {ts : List Ty} (h : ∃ m ∈ ts, m.isOpt = true) :
+    Ty.null ∈ (splitMembers reg ts).other :=
+  split_other_null_iff.2 (exists_opt_flatL h)
+
+
+/-! ### recognising `hidden` -/
+
+theorem hidden_iff {t : Ty} : hidden t = true ↔ (∃ ms, t = .union ms) ∨ ∃ ms, t = .opt (.union ms) := by
+  cases t with
+  | opt y => cases y <;> simp [hidden]
+  | _ => simp [hidden]
+
+theorem hidden_false_iff {t : Ty} : hidden t = false ↔ (∀ ms, t ≠ .union ms) ∧ ∀ ms, t ≠ .opt (.union ms) := by
+  cases t with
+  | opt y => cases y <;> simp [hidden]
+  | _ => simp [hidden]
+
+theorem hidden_false_of_not_opt_not_union {t : Ty} (h1 : t.isOpt = false) (h2 : t.isUnion = false) :
+    hidden t = false := by
+  cases t <;> simp_all [hidden, Ty.isOpt, Ty.isUnion]
+
+theorem hidden_opt_false {y : Ty} (h : y.isUnion = false) : hidden (.opt y) = false := by
+  cases y <;> simp_all [hidden, Ty.isUnion]
+
+/-! ### sanity checks -/
+
+example : expand 10 [.opt (.union [.int, .union [.str]]), .float] = [.null, .int, .str, .float] := by
+  simp [expand]
+example : flatL [.opt (.union [.int, .union [.str]]), .float, .opt (.list .int)] =
+    [.null, .int, .str, .float, .opt (.list .int)] := by
+  simp [flatT]
+example (reg : StrRegistry) : splitMembers reg [.opt (.union [.int, .list .str]), .opt (.dict .int)] =
+    { other := [.null, .int, .null], lists := [.str], dicts := [.int] } := by
+  simp [splitMembers, splitMembersAux, Ty.size, Ty.sizeList]
+example (reg : StrRegistry) : splitFold reg [.opt (.union [.int, .list .str])] =
+    { other := [.null, .union [.int, .list .str]] } := by
+  simp [splitFold]
+
 end J2M.SplitW
